@@ -10,6 +10,7 @@ import (
 	"path/filepath"
 	"strconv"
 	"strings"
+	"sync"
 	"time"
 
 	"github.com/mimecast/dtail/verifharness/internal/mq"
@@ -105,12 +106,16 @@ func c06Body(r *vlib.Run) int {
 			r.Violation("server-died", map[string]interface{}{"fleet": p})
 		}
 	})
+	var absent sync.WaitGroup
+	absent.Add(1)
+	go func() { defer absent.Done(); c06Absent(r) }()
 	c06Provoke(r)
 	c06LongRun(r)
 	c06PipeRuns(r)
 	c06Systematic(r)
 	c06AggTier(r)
 	c06Merge(r)
+	absent.Wait()
 	return len(plans) * runsPer / 2
 }
 
@@ -490,6 +495,101 @@ func c06PipeRuns(r *vlib.Run) {
 			}
 			r.Violation(what, map[string]interface{}{"scenario": fmt.Sprint("serverless dmap on a pipe: ", n, " lines/groups, interval 1, input ends ") + fmt.Sprint(ends[i]) + " ms after the last line was written",
 				"lines_in_result": total, "want": n, "error": fmt.Sprint(err), "stderr": vlib.Trunc(se.String(), 800)})
+		}
+	})
+}
+
+// c06Absent: servers on which the requested file does not exist (or the glob
+// matches nothing, or the user may not read it). "Any number of files" includes
+// none: the run must account for the files of the other servers and terminate
+// (it used to hang for ever: fixed: property=C06 ... no file to read).
+func c06Absent(r *vlib.Run) {
+	fl, err := startFleet(r, "c06abs", 3, map[string]interface{}{"MaxConcurrentCats": 2, "MaxConnections": 50,
+		"Permissions": map[string]interface{}{"Default": []string{"^/.*", "!.*/denied/.*"}}}, nil, "error")
+	if err != nil {
+		r.Inconclusive("fleet-start")
+		return
+	}
+	defer fl.Stop()
+	type scen struct {
+		name    string
+		files   string
+		has     []int // servers that have the (allowed) files
+		perSrv  int   // files per server that has them
+		useGlob bool
+	}
+	scens := []scen{
+		{"one server lacks the file", "abs0/a.log", []int{0, 2}, 1, false},
+		{"no server has the file", "abs1/a.log", nil, 1, false},
+		{"glob matches nothing on one server", "abs2/*.log", []int{1, 2}, 3, true},
+		{"file exists everywhere but may not be read on any", "denied/a.log", nil, 1, false},
+		{"only one of three servers has files", "abs4/*.log", []int{1}, 2, true},
+	}
+	if !r.Thorough() {
+		scens = scens[:4]
+	}
+	vlib.Parallel(len(scens), len(scens), func(i int) {
+		sc := scens[i]
+		want := 0
+		dir := filepath.Dir(sc.files)
+		has := map[int]bool{}
+		for _, s := range sc.has {
+			has[s] = true
+		}
+		for s := range fl.Servers {
+			if !has[s] && dir != "denied" {
+				continue
+			}
+			for f := 0; f < sc.perSrv; f++ {
+				var b bytes.Buffer
+				for q := 1; q <= 40+7*f; q++ {
+					b.WriteString(c06Line(fmt.Sprintf("s%df%d", s, f), 0, q) + "\n")
+					if has[s] {
+						want++
+					}
+				}
+				name := filepath.Join(dir, "a.log")
+				if sc.useGlob {
+					name = filepath.Join(dir, fmt.Sprintf("p%d.log", f))
+				}
+				fl.WriteFile(s, name, b.Bytes())
+			}
+		}
+		out := filepath.Join(fl.Home, fmt.Sprintf("abs-%d.csv", i))
+		os.Remove(out)
+		query := "from CONS select fid,count($line) group by fid outfile " + out
+		args := append(fl.ClientArgs(), "--logger", "stdout", "--logLevel", "error", "--noColor", "--files", sc.files, "--query", query)
+		res := vlib.RunCmd(vlib.Cmd{Path: r.Bin("dmap"), Args: args, Env: fl.ClientEnv(), Dir: fl.Home, Watchdog: 180 * time.Second})
+		r.Eval("absent|" + sc.name)
+		r.Count("runs_with_servers_without_readable_files", 1)
+		if res.TimedOut {
+			r.Inconclusive("dmap-watchdog")
+			return
+		}
+		got := 0
+		if b, err := os.ReadFile(out); err == nil {
+			_, rows := mq.ParseCSV(string(b))
+			for _, row := range rows {
+				if len(row) == 2 {
+					c, _ := strconv.Atoi(row[1])
+					got += c
+				}
+			}
+		}
+		os.Remove(out)
+		os.Remove(out + ".query")
+		r.Count("lines_accounted", got)
+		detail := map[string]interface{}{"scenario": sc.name, "files": sc.files, "servers_with_files": sc.has, "lines_in_result": got, "want": want,
+			"hung": res.Hung, "exit": res.Exit, "stdout": vlib.Trunc(string(res.Stdout), 600)}
+		switch {
+		case res.Hung:
+			r.Violation("dmap-did-not-terminate", detail)
+		case got < want:
+			r.Violation("lines-missing-from-result", detail)
+		case got > want:
+			r.Violation("lines-counted-more-than-once", detail)
+		case res.Exit != 0:
+			r.Violation("exit-status", detail)
 		}
 	})
 }
